@@ -271,6 +271,26 @@ impl ProgProp {
     }
 }
 
+impl ProgProp {
+    /// the necessary conditions of the static stage on one enumerated document sequence
+    fn static_oracle(&self, docs: &[&crate::model::Node], bytes: &[Vec<u8>]) -> Result<bool, String> {
+        let root = crate::sut::parse_seq(bytes).map_err(|(i, e)| format!("document #{} rejected: {}", i + 1, e))?;
+        let o = self.options();
+        let src = root.to_serde_struct(&o);
+        let defs = crate::rendered::read_syn(&src).map_err(|e| format!("the generated source cannot compile: {}", e))?;
+        super::c04::well_formed(&defs).map_err(|e| format!("the generated source cannot compile: {}", e))?;
+        if let Some(d) = defs.iter().find(|d| d.name == "Serialize" || d.name == "Deserialize") {
+            return Err(format!("the generated source cannot compile: struct `{}` clashes with the serde import of the header", d.name));
+        }
+        let tree = crate::rendered::build_tree(&defs, &o.attribute_prefix, &o.text_identifier).map_err(|e| format!("the generated structs do not form a tree: {}", e))?;
+        for (i, d) in docs.iter().enumerate() {
+            let r = if self.deser == Deser::QuickXml { super::c01::admits(d, &tree, "") } else { admits_flat(d, &tree, "") };
+            r.map_err(|e| format!("from_str cannot succeed for source document #{}: {}", i + 1, e))?;
+        }
+        Ok(true)
+    }
+}
+
 impl Property for ProgProp {
     fn id(&self) -> &'static str {
         self.id
@@ -395,6 +415,17 @@ impl Property for ProgProp {
                 return Err((f, json!({"a": hex(&t.a), "b": hex(&t.b), "c": hex(&t.c)})));
             }
         }
+        // the same necessary conditions on the enumerated families beyond the small scope that lie inside the domain
+        // (many colliding names, many attributes / children, several new ones at once)
+        {
+            let (n, fail) = super::smallscope::run_big_families_where(|l| l.starts_with("collision swarm") || l.starts_with("n=") || l.starts_with("chain of depth"), |d, b| self.static_oracle(d, b));
+            st.evaluations += n;
+            st.add("static_precheck_big_families", n);
+            if let Some((label, e, docs)) = fail {
+                let first = e.lines().next().unwrap_or("").to_string();
+                return Err((Failure::new(format!("family `{}`: {}", label, first)).with_signature("compile_error").with_detail(json!({"documents": docs, "message": e})), json!({"big_family": label})));
+            }
+        }
         let all = gen_tapes(self, seed, batches * size);
         let known: Vec<String> = load_known().into_iter().filter(|k| k.property == self.id).map(|k| k.signature).collect();
         let next = AtomicU64::new(0);
@@ -484,6 +515,9 @@ impl Property for ProgProp {
         }
     }
     fn replay_custom(&self, payload: &Value) -> Result<(), Failure> {
+        if let Some(l) = payload["big_family"].as_str() {
+            return super::smallscope::replay_big_family(l, |d, b| self.static_oracle(d, b)).map_err(Failure::new);
+        }
         let t = Tapes { a: unhex(payload["a"].as_str().unwrap_or("")), b: unhex(payload["b"].as_str().unwrap_or("")), c: unhex(payload["c"].as_str().unwrap_or("")), small: false };
         let mut st = Stats::default();
         self.run_single(&t, &mut st)
